@@ -836,6 +836,11 @@ pub fn run(rec: &mut Rec) {
     hyrax_stretched_z_forgery(rec);
     lig_vanishing_forgery(rec);
     lig_coordinated_vectors_forgery(rec);
+    // proofs of the library's own prover against the values at rearranged points (hypercube and near it)
+    crate::special::hypercube::<SPst>(rec, "C03", &[2, 3]);
+    crate::special::hypercube::<SHyr>(rec, "C03", &[2, 4]);
+    crate::special::hypercube::<SMll>(rec, "C03", &[2, 3, 4]);
+    crate::special::hypercube::<SBrk>(rec, "C03", &[2, 3, 4]);
     equal_weight_forgery::<SMar>(rec, &|vk| vk.vk.g, &|p, w| ark_poly_commit::kzg10::Proof { w, random_v: p.random_v }, &|p| p.w);
     equal_weight_forgery::<SSon>(rec, &|vk| vk.g, &|p, w| ark_poly_commit::kzg10::Proof { w, random_v: p.random_v }, &|p| p.w);
     crate::special::c03_special(rec);
